@@ -196,6 +196,19 @@ func (e *E) Const(t *Tabs) (*Lit, bool) {
 	b, zb := e.R.Const(t)
 	zero := za || zb
 	if b != nil && (e.Op == "/" || e.Op == "%") && ((b.IsF && b.F == 0) || (!b.IsF && b.I == 0)) {
+		if a != nil && (a.IsF || b.IsF) {
+			// the unoptimised VM still computes x / 0.0 and math.Mod(x, 0.0)
+			x, y := a.F, b.F
+			if !a.IsF {
+				x = float64(a.I)
+			}
+			if !b.IsF {
+				y = float64(b.I)
+			}
+			if e.Op == "%" {
+				t.Mod(x, y)
+			}
+		}
 		return nil, true
 	}
 	if a == nil || b == nil || zero {
